@@ -49,6 +49,13 @@ CLAIMED = {
             "relational symbolic execution of the real ensemble classes with z3: recording stub members / spy elections prove "
             "the update, reset and set_reference fan-out (identity and order of arguments) and the views; real members inside "
             "an ensemble are proved state-equal to independently updated twins"),
+    "C14": ("DESIGN.md 7/C14",
+            "numpy/pandas coercion of the five container kinds modelled by shape-only fakes (validated on a concrete grid each "
+            "run); kernel stubs of C01/C02 in the relational runs; one known finding (DataFrame after arrays) keyed to its own "
+            "obligation label; MD3 validation is part of C19",
+            "symbolic execution of the real validation code with z3 on containers of symbolic shape / column identity (all call "
+            "histories up to the bound against the acceptance rule), plus relational runs: history+malformed+input vs "
+            "history+input and container-kind equivalence with complete-state equality"),
     "C13": ("DESIGN.md 7/C13",
             "members modelled as objects exposing drift_state; parameters on their documented domains; z3 LIA; CPython",
             "symbolic execution of election.py with z3: all vote patterns for n<=5/6 members with unbounded integer "
